@@ -32,7 +32,9 @@ LEVEL_TEXT = ("Proof: the line-by-line decoder of catalog-forecast CSV files (st
               "the ValueError (stream_encode_then_decreasing, any n / events / gaps); csv records that span physical lines "
               "(quoted fields with line breaks; csvML) are modelled and proved to extend the line-by-line reader, so the decode "
               "theorem holds for such texts; the option handling of the two public loaders is modelled.")
-LEVEL_NOTE = ("csv tokenisation (incl. quoted fields that contain line breaks), float(), int() and strptime parsing of the fields "
+LEVEL_NOTE = ("Round 6: the keyword plumbing of load_catalog_forecast is modelled (CfKw, delivered, forecastPass) and proved inert "
+              "without apply_filters / with nothing configured; UCERF3 binary event sets are not modelled (not in the property's "
+              "statement; the dispatch to them is an outcome of sesDispatch). csv tokenisation (incl. quoted fields that contain line breaks), float(), int() and strptime parsing of the fields "
               "are MODELLED (Model/CatalogText.lean, Model/CatalogStream.lean, Model/DecimalText.lean) for ASCII text and compared "
               "with Python on every file and on separate token / record / text / time-string streams; non-ASCII digits, inf / nan "
               "words and the sign of a zero are outside the model. The CSEPCatalog constructor (tuples -> structured array with "
@@ -59,7 +61,9 @@ THEOREMS = ["AsciiCatalogs.decode_encode", "AsciiCatalogs.decode_encode_length",
             "AsciiCatalogs.splitLinesT_fst", "AsciiCatalogs.csvML_of_lines", "AsciiCatalogs.csvRecordsML_eq",
             "AsciiCatalogs.decodeTextML_eq_decodeText", "AsciiCatalogs.decodeTextML_encode",
             "AsciiCatalogs.decodeTextML_encode_records", "AsciiCatalogs.ses_reaches_decoder_iff",
-            "AsciiCatalogs.cf_builds_forecast_iff", "AsciiCatalogs.takeFrac_digits", "AsciiCatalogs.takeFrac_scales"]
+            "AsciiCatalogs.cf_builds_forecast_iff", "AsciiCatalogs.takeFrac_digits", "AsciiCatalogs.takeFrac_scales",
+            "AsciiCatalogs.delivered_unfiltered", "AsciiCatalogs.delivered_nothing_configured", "AsciiCatalogs.second_pass_same",
+            "AsciiCatalogs.forecastPass_encode"]
 # (the two id classes on which the unchanged code does not return the written event id — non-ASCII ids, ids longer than 256
 # bytes — are known findings D45 / D46: generated on ~3 % of the files and reported as KNOWN-FINDING, see SIG_D45 / SIG_D46)
 EXCLUDED_INPUT_CLASSES = []
@@ -100,7 +104,14 @@ RULE = ("exhaustive: every forecast of n <= 5 catalogs with 0..2 events each x e
         "origin times with fractions of EVERY length 1..6 (padded and unpadded clock fields); ~3 % of the well-formed files carry "
         "1..3 event ids of a known-finding class (non-ASCII: D45, longer than 256 bytes: D46) and are matched by their exact "
         "outcome (UnicodeEncodeError / everything right but the ids cut at 256 bytes), anything else is a violation; 1 % of all "
-        "ids are ASCII ids of 129 / 200 / 255 / 256 bytes that must arrive unchanged. A case "
+        "ids are ASCII ids of 129 / 200 / 255 / 256 bytes that must arrive unchanged. Round 6: a gap of > 65 536 omitted catalogs and "
+        "a file of > 65 536 rows in every run; 40 % of the files are loaded through another call form (positional / keyword, "
+        "inert keywords store / filters / filter_spatial / apply_mct / region / n_cat / name with apply_filters off or nothing "
+        "configured, pathlib.Path, a bare file name relative to the cwd); walk 'ops' (a quarter of the files): "
+        "get_expected_rates / spatial_counts / magnitude_counts / get_event_counts / magnitudes / next on the forecast object "
+        "(region containing none or nearly all events, store on / off, each may raise) BEFORE the catalogs are read twice; the "
+        "arrays of catalogs already delivered are overwritten in place and the file is loaded again / the store=False forecast "
+        "re-read; ids that look like numbers beyond 2^53; one file in eight with numeric / user warnings as errors. A case "
         "is non-trivial when the file has >= 2 catalogs and at least one empty catalog or is a rejection case; distinct by "
         "the sha1 of the file text")
 
@@ -213,6 +224,9 @@ SPECIAL_IDS = ["ci38457511,us7000abcd", 'the "big" one', ",", '"', '""', " ", "a
                'a""b', ",,", '",', ',"', "a;b", "lon", "lon,lat", "1,5", "1.5", "1e5", "-1", "None", "x~y", "a|b", "#x",
                "us7000abcd,ci38457511,nc73649170", "it's", "0,0,0,0,0,0,0", ',,,,,3,',
                # ids that contain a line break: csv writes them as quoted fields that span physical lines
+               # ids that look like numbers no float / int64 can hold: an id is a string
+               "9007199254740993", "18446744073709551616", "-9223372036854775809", "1e400", "-0", "-0.0", "0.0", "nan", "inf",
+               "00012", "1_000", "0x1F", "5e-324",
                "a\nb", "line1\r\nline2", "\n", "x\n", "\ny", '"\n"', "a\rb", "two\n\nbreaks", ",\n,", "1,2\n3,4,5,6,7,8,9"]
 
 
@@ -395,21 +409,187 @@ def _canon_loaded(catalogs):
 LOADERS = ("load_ascii_catalogs", "load_catalog_forecast", "load_stochastic_event_sets")
 # ways of walking over the object csep.load_catalog_forecast returns (chosen per file from its content hash): one plain
 # loop; or a first look at k catalogs (next() / a for-loop left early), then the rest, then the whole forecast once more
-WALKS = ("plain", "plain", "next1", "break1", "next2", "twice")
+WALKS = ("plain", "plain", "next1", "break1", "next2", "twice", "ops", "ops")
+# "ops": other public operations of the forecast object (get_expected_rates — also when it raises —, spatial_counts,
+# magnitude_counts, get_event_counts, magnitudes) are called in a random order BEFORE the catalogs are read; whatever they do or
+# raise, the catalogs the forecast then delivers are the file's: exactly their own events, in file order, fields unchanged
 
 
 class WalkError(Exception):
     pass
 
 
-def _load(path, which, walk="plain", csep_format=False):
+class _Materialised:
+    """a forecast read completely while the current directory was the file's (relative file name): replays its catalogs"""
+
+    def __init__(self, fore):
+        self.cats = [c for c in fore]
+        self.n_cat = len(self.cats)
+        self._k = 0
+
+    def __iter__(self):
+        return self
+
+    def __next__(self):
+        if self._k >= len(self.cats):
+            self._k = 0
+            raise StopIteration
+        self._k += 1
+        return self.cats[self._k - 1]
+
+
+# the same call written in other ways (positional / keyword arguments, keywords that must not change the catalogs because
+# `apply_filters` is off or nothing is configured, explicit defaults); chosen per file from its content hash
+N_VARIANTS = 12
+_REGION = []
+
+
+def _global_region():
+    """10-degree cells over the whole globe, magnitude bins 0..10: (almost) every generated event lies inside"""
+    if len(_REGION) < 2:
+        import numpy
+        from csep.core.regions import CartesianGrid2D
+        _some_region()
+        org = numpy.array([[float(x), float(y)] for x in range(-180, 180, 10) for y in range(-90, 90, 10)])
+        _REGION.append(CartesianGrid2D.from_origins(org, dh=10.0, magnitudes=numpy.arange(0.0, 10.5, 1.0)))
+    return _REGION[1]
+
+
+def _ops_walk(path, fmt, seed):
+    """load_catalog_forecast(path, region=R, store=...) — a region that holds none / nearly all of the events —, a few other
+    public operations on the object (each may raise: e.g. get_expected_rates on an event outside the region), then the
+    interrupted pass is finished and the forecast is read twice from the start"""
+    import contextlib
+    import random
+    import csep
+    g = random.Random(seed)
+    region = _some_region() if g.random() < 0.5 else _global_region()
+    fore = csep.load_catalog_forecast(path, region=region, store=g.random() < 0.8, **fmt)
+    for _ in range(g.randint(1, 3)):
+        op = g.choice(["get_expected_rates", "spatial_counts", "magnitude_counts", "get_event_counts", "magnitudes", "next"])
+        try:
+            with contextlib.redirect_stdout(io.StringIO()):
+                if op == "next":
+                    next(fore)
+                elif op == "magnitudes":
+                    fore.magnitudes, fore.min_magnitude
+                elif op == "get_event_counts":
+                    fore.get_event_counts(verbose=False)
+                else:
+                    getattr(fore, op)()
+        except Exception:       # ValueError for an event outside the region, StopIteration, ...: not this property's business
+            pass
+    for _ in fore:              # finish a pass that an exception left half-way (known finding D27 of C13)
+        pass
+    first = [c for c in fore]
+    if not first:               # the pass on which a streamed forecast switches over to its stored catalogs is empty
+        first = [c for c in fore]
+    again = [c for c in fore]
+    a, b = _canon_loaded(first), _canon_loaded(again)
+    if a != b:
+        raise WalkError(f"walk ops: after other operations on the forecast a pass gave {a[:300]} but the next one {b[:300]}")
+    return first
+
+
+def _some_region():
+    """a small space-magnitude region that contains none of the generated events (handed over as `region=`: without
+    apply_filters + filter_spatial it must not remove anything)"""
+    if not _REGION:
+        import numpy
+        from csep.core.regions import CartesianGrid2D
+        _REGION.append(CartesianGrid2D.from_origins(numpy.array([[0.0, 0.0], [0.1, 0.0]]), dh=0.1, magnitudes=numpy.array([4.0, 5.0])))
+    return _REGION[0]
+
+
+@contextlib.contextmanager
+def _cwd(d):
+    old = os.getcwd()
+    os.chdir(d)
+    try:
+        yield
+    finally:
+        os.chdir(old)
+
+
+def _call(which, path, variant, fmt):
+    """the loader called in way number `variant` (0 = the plain call); returns what the call returns"""
+    import pathlib
     import csep
     from csep.core.catalogs import CSEPCatalog
+    f_ = fmt.get("format", "native")
+    if variant % 7 == 5:          # the file given as a pathlib.Path
+        path = pathlib.Path(path)
+    elif variant % 7 == 6:        # ... as a bare file name relative to the current directory (everything is read inside)
+        with _cwd(os.path.dirname(path)):
+            out = _call(which, os.path.basename(path), variant - (variant % 7), fmt)
+            return list(out) if which != "load_catalog_forecast" else _Materialised(out)
     if which == "load_ascii_catalogs":
-        return list(CSEPCatalog.load_ascii_catalogs(path))
+        return [lambda: CSEPCatalog.load_ascii_catalogs(path),
+                lambda: CSEPCatalog.load_ascii_catalogs(filename=path),
+                lambda: CSEPCatalog.load_ascii_catalogs(path, name="given"),
+                lambda: CSEPCatalog.load_ascii_catalogs(path, region=None, format="native"),
+                lambda: CSEPCatalog.load_ascii_catalogs(filename=path, region=_some_region())][variant % 5]()
+    if which == "load_stochastic_event_sets":
+        return [lambda: csep.load_stochastic_event_sets(path, **fmt),
+                lambda: csep.load_stochastic_event_sets(path, "csv", f_),
+                lambda: csep.load_stochastic_event_sets(filename=path, format=f_, type="csv"),
+                lambda: csep.load_stochastic_event_sets(path, "csv", format=f_, name="given"),
+                lambda: csep.load_stochastic_event_sets(path, region=None, **fmt)][variant % 5]()
+    return [lambda: csep.load_catalog_forecast(path, **fmt),
+            lambda: csep.load_catalog_forecast(path, None, f_, "ascii"),
+            lambda: csep.load_catalog_forecast(fname=path, type="ascii", format=f_, catalog_loader=None),
+            lambda: csep.load_catalog_forecast(path, store=False, **fmt),
+            lambda: csep.load_catalog_forecast(path, store=True, apply_filters=False, filters=["magnitude >= 99"], filter_spatial=True,
+                                               apply_mct=True, **fmt),
+            lambda: csep.load_catalog_forecast(path, apply_filters=True, **fmt),
+            lambda: csep.load_catalog_forecast(path, apply_filters=True, filters=[], filter_spatial=False, store=False, **fmt),
+            lambda: csep.load_catalog_forecast(path, region=_some_region(), **fmt),
+            lambda: csep.load_catalog_forecast(path, catalog_loader=CSEPCatalog.load_ascii_catalogs, **fmt),
+            lambda: csep.load_catalog_forecast(path, name="given", n_cat=3, **fmt),
+            lambda: csep.load_catalog_forecast(path, CSEPCatalog.load_ascii_catalogs, f_, "whatever"),
+            lambda: csep.load_catalog_forecast(path, region=_some_region(), filter_spatial=True, filters=["magnitude >= 99"],
+                                               store=False, **fmt)][variant % N_VARIANTS]()
+
+
+def _scribble(cats):
+    """the caller overwrites, in place, the event arrays of the catalogs it was given"""
+    for c in cats:
+        if c.event_count:
+            a = c.catalog
+            a["magnitude"][:] = -9.0
+            a["origin_time"][:] = 0
+            a["longitude"][:] = 0.0
+            a["id"][:] = b"zz"
+
+
+def _load(path, which, walk="plain", csep_format=False, variant=0):
     fmt = dict(format="csep") if csep_format else {}     # 'csep': catalogs converted with get_csep_format()
+    if which != "load_catalog_forecast" and variant % 3 == 1:
+        # what a loader returned is overwritten in place by the caller; loading the file AGAIN gives the file's catalogs
+        first = list(_call(which, path, variant, fmt))
+        want = _canon_loaded(first)
+        _scribble(first)
+        second = list(_call(which, path, variant, fmt))
+        if _canon_loaded(second) != want:
+            raise WalkError("after the caller overwrote the arrays of the catalogs of a first load, loading the same file again "
+                            "gives other catalogs")
+        return second
+    if which == "load_ascii_catalogs":
+        return list(_call(which, path, variant, fmt))
+    if which == "load_catalog_forecast" and walk == "ops":
+        return _ops_walk(path, fmt, variant)
     if which == "load_catalog_forecast":
-        fore = csep.load_catalog_forecast(path, **fmt)
+        fore = _call(which, path, variant, fmt)
+        if walk == "plain" and variant % N_VARIANTS in (3, 6, 11) and variant % 7 != 6:
+            # store=False: every pass re-reads the file — overwriting the arrays of the first pass must not show in the second
+            first = [c for c in fore]
+            want = _canon_loaded(first)
+            _scribble(first)
+            again = [c for c in fore]
+            if _canon_loaded(again) != want:
+                raise WalkError("store=False: after the caller overwrote the arrays of the catalogs of the first pass, the second "
+                                "pass gives other catalogs")
+            return again
         if walk == "plain":
             return [c for c in fore]
         seen = []
@@ -433,7 +613,7 @@ def _load(path, which, walk="plain", csep_format=False):
                             f"again gave {b[:300]}")
         # (n_cat after a full pass is C13's subject: not judged here)
         return first
-    return list(csep.load_stochastic_event_sets(path, **fmt))
+    return list(_call(which, path, variant, fmt))
 
 
 def _lazy(path, which, csep_format=False):
@@ -456,9 +636,17 @@ def _lazy(path, which, csep_format=False):
     return got, err
 
 
-def _impl(path, which, walk="plain", csep_format=False):
+def _impl(path, which, walk="plain", csep_format=False, variant=0, strict_warnings=False):
+    import warnings
     try:
-        return _canon_loaded(_load(path, which, walk, csep_format))
+        if strict_warnings:
+            # numeric / user warnings raised as errors while the file loads (DeprecationWarning is left alone: the catalog
+            # constructor of the unchanged tree calls datetime.utcnow())
+            with warnings.catch_warnings():
+                for cat_ in (RuntimeWarning, UserWarning, FutureWarning):
+                    warnings.simplefilter("error", cat_)
+                return _canon_loaded(_load(path, which, walk, csep_format, variant))
+        return _canon_loaded(_load(path, which, walk, csep_format, variant))
     except WalkError as e:
         return "walk:" + str(e)
     except Exception as e:  # canonical: rejected, with the class kept for the histogram
@@ -495,6 +683,8 @@ def check_case(ctx, spec, tag, loaders=LOADERS):
     n_empty = sum(1 for c in spec["cats"] if not c)
     small = len(body) < 4000
     zone = spec.get("tz")
+    if spec.get("idclass") and "walk" not in spec:
+        spec = dict(spec, walk="plain")      # (known-finding classes: the whole-file outcome is matched, no interleaved operations)
     case = dict(tag=tag, n_cat=n, n_empty=n_empty, header=spec["header"], mutation=spec.get("mutation"), tz=zone,
                 spec=spec if small else None, sha1=hashlib.sha1((body + "|" + str(zone)).encode()).hexdigest())
     full_case = dict(case, spec=spec)
@@ -531,6 +721,16 @@ def check_case(ctx, spec, tag, loaders=LOADERS):
     csep_format = int(case["sha1"][6:8], 16) % 4 == 0      # a quarter of the files: format='csep' in the two top-level loaders
     if csep_format:
         run.count("format='csep'")
+    # the way the three loaders are called (positional / keyword, keywords that must not matter) and whether numeric and
+    # user warnings are errors while loading: from the content hash, or pinned by a corpus / replay case
+    variant = spec.get("variant", int(case["sha1"][8:11], 16) % 60 if int(case["sha1"][11], 16) < 6 else 0)
+    strict_w = spec.get("strict_warnings", int(case["sha1"][12], 16) < 2)
+    if walk == "ops":
+        variant = spec.get("variant", int(case["sha1"][8:13], 16))       # seeds the operations of the walk
+    if variant:
+        run.count("call variant (positional / keyword / inert keywords)")
+    if strict_w:
+        run.count("loaded with RuntimeWarning / UserWarning / FutureWarning as errors")
     lazy = {}
     want_cats = [] if expected is not None else _canon_expected(
         [[i, [[e[6], e[4], e[1], e[0], e[5], e[2]] for e in c]] for i, c in enumerate(spec["cats"])])[3:].split(";")
@@ -556,7 +756,7 @@ def check_case(ctx, spec, tag, loaders=LOADERS):
                                                   f"not the leading catalogs of the file: got {';'.join(seen)[:300]} expected a "
                                                   f"prefix of {';'.join(want_cats)[:300]}")
             else:
-                got = _impl(path, which, walk, csep_format)
+                got = _impl(path, which, walk, csep_format, variant, strict_w)
         outs[which] = got
         if got.startswith("walk:"):
             run.oracle_failure(full_case, f"{which}: {got[5:]}")
@@ -593,6 +793,10 @@ def check_case(ctx, spec, tag, loaders=LOADERS):
     if spec.get("fname"):
         _file_meta(ctx, path, spec)
     os.unlink(path)
+    if spec.get("oracle_only"):
+        # (a file of > 2^16 rows in the quick tier: the exact oracle judges it; the Lean text model would need ~30 s for it)
+        run.count("judged by the oracle only (size)")
+        return
     i = ctx.drv.ask("c12_decode " + (";".join(model) if model else "-"))
     # the same file handed to the TEXT-level model as characters (csv state machine incl. records that span lines, float(),
     # int(), strptime in Lean), consumed lazily: the catalogs yielded, then the end or the exception
@@ -923,10 +1127,26 @@ def run(run, rng, tier):
             "some_missing_verbose": dict(cats=[[], [], [], [e], [], [], [], [e], [], []], choices=[True] * 10)}
         for name, sp in fixtures.items():
             check_case(ctx, dict(sp, header=False, trailing_newline=False), "fixture-" + name)
+        # sizes beyond 2^16: a gap of more than 65 536 omitted catalogs, more than 65 536 rows in one file, more than 65 536
+        # events in one catalog (thorough: several of each, header / placeholder variants)
+        big = [dict(cats=[[_event(rng, 0)]] + [[]] * (65536 + rng.randint(1, 5000)) + [[_event(rng, 1)]],
+                    choices=[False] * 70600, header=rng.random() < 0.5),
+               dict(cats=[[_event(rng, k) for k in range(22000 + rng.randint(0, 50))] for _ in range(3)], choices=[True] * 3,
+                    header=rng.random() < 0.5, oracle_only=(tier == "quick"))]
+        if tier != "quick":
+            big += [dict(cats=[[_event(rng, k) for k in range(65537 + rng.randint(0, 300))], [], [_event(rng, 5)]],
+                         choices=[True, rng.random() < 0.5, True], header=False),
+                    dict(cats=[[]] * 65600 + [[_event(rng, 2)]], choices=[rng.random() < 0.01 for _ in range(65601)], header=True)]
+        for sp in big:
+            run.count("file beyond 2^16 rows / catalogs")
+            check_case(ctx, dict(sp, header_case=0, trailing_newline=True, tz=None, quoting="minimal", eol="\n", fname=None,
+                                 walk="plain"), "beyond-2^16",
+                       loaders=LOADERS if tier != "quick" or not sp.get("oracle_only") else LOADERS[:2])
+            flush(ctx)
         run.extra["exhaustive_cases"] = _exhaustive(ctx, rng, 5 if tier == "quick" else 6)
         run.extra["exhaustive"] = True
         flush(ctx)
-        n_small, n_big, n_mut = (400, 40, 300) if tier == "quick" else (5000, 500, 4000)
+        n_small, n_big, n_mut = (320, 32, 250) if tier == "quick" else (5000, 500, 4000)
         for _ in range(n_small):
             check_case(ctx, _random_forecast(rng, False, idclass_ok=True), "random-small")
         flush(ctx)
